@@ -26,6 +26,10 @@ shOpacity enabled useGlobalAngle direction opt color opt color · `SolidFillInfo
 Unit 4 classes: `VirtualMemoryArray` isWritten opt(depth <4> n*4 pixelDepth compression <hex>) · `VirtualMemoryArrayList` version
 <n> n* <n> array* · `Pattern` version mode <n> int* name <hex id> opt(<n> (<n> n*)*) list · `Patterns` <n> pattern*.
 
+Unit 5 classes: `LinkedLayer` <kind hex> version <uuid hex> filename <hex> <hex> opt<filesize> opt block opt block
+opt(year <n> n* <bits>) opt<data hex> opt str opt<bits> opt<n> (block = the descriptor block tokens of Driver/Descriptor.lean) ·
+`LinkedLayers` <n> item*.
+
 Unit 1 classes: `LayerInfoBlock` (tokens of a LayerInfo), `TaggedBlock` (signature key payload, payload = `0 <hex>` raw |
 `1 <LayerInfo>`), `PSD` (the deep document: header, colour mode data, resources, layer info, global mask info,
 typed blocks, image data; `version` is ignored, `pad` is the layer-info padding).
@@ -37,6 +41,7 @@ import PsdVerif.Model.PayloadLayerInfo
 import PsdVerif.Model.PayloadSimple
 import PsdVerif.Model.PayloadEffects
 import PsdVerif.Model.PayloadPatterns
+import PsdVerif.Model.PayloadLinked
 import PsdVerif.Model.DescriptorTables
 
 namespace Driver.Payload
@@ -204,6 +209,23 @@ def tPattern (x : Pattern) : T :=
   tNat x.version ++ tNat x.imageMode ++ tList tInt x.point ++ tStr x.name ++ tBytes x.patternId ++
   tOpt (tList (tList tNat)) x.colorTable ++ tVMAL x.data
 
+/-! ### unit 5 tokens -/
+
+def pBlockD : P Descriptor.Block := Driver.Descriptor.pBlock
+def tBlockD (b : Descriptor.Block) : T := Driver.Descriptor.tBlock b []
+
+def pLinked : P LinkedLayer := do
+  let kind ← pBytes; let ver ← pNat; let uuid ← pBytes; let fnm ← pStr; let ft ← pBytes; let cr ← pBytes
+  let fsz ← pOpt pNat; let ofl ← pOpt pBlockD; let lfl ← pOpt pBlockD
+  let ts ← pOpt (do let y ← pNat; let fs ← pList pNat; let sec ← pF64; pure (⟨y, fs, sec⟩ : Timestamp))
+  let dt ← pOpt pBytes; let cid ← pOpt pStr; let mt ← pOpt pF64; let ls ← pOpt pNat
+  pure ⟨kind, ver, uuid, fnm, ft, cr, fsz, ofl, lfl, ts, dt, cid, mt, ls⟩
+def tLinked (x : LinkedLayer) : T :=
+  tBytes x.kind ++ tNat x.version ++ tBytes x.uuid ++ tStr x.filename ++ tBytes x.filetype ++ tBytes x.creator ++
+  tOpt tNat x.filesize ++ tOpt tBlockD x.openFile ++ tOpt tBlockD x.linkedFile ++
+  tOpt (fun (t : Timestamp) => tNat t.year ++ tList tNat t.fields ++ tF64 t.seconds) x.timestamp ++
+  tOpt tBytes x.data ++ tOpt tStr x.childId ++ tOpt tF64 x.modTime ++ tOpt tNat x.lockState
+
 /-! ### answers -/
 
 def encOut (r : Except Err W) (wf : Bool) (after : T) : String :=
@@ -254,6 +276,8 @@ def encCmd (cls : String) (v pad : Nat) (toks : String) : String :=
   | "VirtualMemoryArrayList" => pcEnc VMAL.codec pVMAL toks
   | "Pattern" => pcEnc Pattern.codec pPattern toks
   | "Patterns" => pcEnc Patterns.codec (pList pPattern) toks
+  | "LinkedLayer" => pcEnc (LinkedLayer.codec rtb pad) pLinked toks
+  | "LinkedLayers" => pcEnc (LinkedLayers.codec rtb) (pList pLinked) toks
   | "LayerInfoBlock" =>
     (match parseAll pLayerInfo toks with
      | some li => encOut (LayerInfoBlock.encW v pad li) (decide (LayerInfoBlock.WF v li)) (tLayerInfo (blockRefresh li))
@@ -304,6 +328,8 @@ def decCmd (cls : String) (v pad : Nat) (d : B) (p : Nat) : String :=
   | "VirtualMemoryArrayList" => pcDec VMAL.codec tVMAL d p
   | "Pattern" => pcDec Pattern.codec tPattern d p
   | "Patterns" => pcDec Patterns.codec (tList tPattern) d p
+  | "LinkedLayer" => pcDec (LinkedLayer.codec rtb pad) tLinked d p
+  | "LinkedLayers" => pcDec (LinkedLayers.codec rtb) (tList tLinked) d p
   | "LayerInfoBlock" => decOut tLayerInfo (LayerInfoBlock.dec v d p)
   | "TaggedBlock" => decOut (tOpt tTBlock) (TBlock.dec v pad d p)
   | "PSD" => decOut tDeepPSD (DeepPSD.read d p)
